@@ -380,7 +380,8 @@ pub fn repoll_done<T: Payload + 'static>(send_side: bool) {
 /// Family D: drop of a future at each stage of its life.
 /// stage: 0 never polled, 1 pending and listed, 2 pending but claimed by a peer that
 /// finishes (fin = 0 hand-off, 1 terminate) at ABW site `site` while Drop waits,
-/// 3 completed by a peer but never re-polled, 4 completed and observed Ready.
+/// 3 completed by a peer but never re-polled, 4 completed and observed Ready,
+/// 5 as 2, but the channel is closed from the other side after the claim and before the drop.
 pub fn future_drop<T: Payload + 'static>(cap: usize, send_side: bool, stage: u8, site: u16, fin: u8, nth: u8) {
     sym_env(0, 0, 0);
     let mut cx = Ctx::<T>::new(Some(cap));
@@ -405,9 +406,14 @@ pub fn future_drop<T: Payload + 'static>(cap: usize, send_side: bool, stage: u8,
         let r = step(&mut cx, 2, act(start).tag(2).w(1).f(1));
         assert!(r.code == R_PENDING);
     }
-    if stage == 2 {
+    let claimed = stage == 2 || stage == 5;
+    if claimed {
         let c = step(&mut cx, 1, act(if send_side { A_CLAIM_SENDER } else { A_CLAIM_RECEIVER }));
         assert!(c.code == R_OK);
+        if stage == 5 {
+            let cl = step(&mut cx, 1, act(if send_side { A_CLOSE_R } else { A_CLOSE_S }));
+            assert!(cl.code == R_OK);
+        }
         let fin_act = if fin == 1 {
             act(A_FINISH_TERMINATE)
         } else if send_side {
@@ -435,7 +441,7 @@ pub fn future_drop<T: Payload + 'static>(cap: usize, send_side: bool, stage: u8,
     }
     let got2_before = cx.got[2];
     let _ = step(&mut cx, 0, act(dropk));
-    if stage == 2 {
+    if claimed {
         assert!(model::fired(0), "C15: Drop returned while a peer still owned the future's signal");
     }
     let a = cx.abs();
@@ -466,7 +472,9 @@ pub fn future_drop<T: Payload + 'static>(cap: usize, send_side: bool, stage: u8,
     } else if !prefilled {
         // nothing may be delivered into the dropped future later
         let p = step(&mut cx, 1, act(if send_side { A_TRY_RECV } else { A_TRY_SEND }).tag(4));
-        if cap == 0 {
+        if stage == 5 {
+            assert!(p.code == R_CLOSED, "C10: operation begun after close did not fail with Closed");
+        } else if cap == 0 {
             assert!(p.code == R_FALSE, "C15: a later operation was delivered into a dropped future");
         }
     }
@@ -639,6 +647,9 @@ fn seq_post<T: Payload + 'static>(cx: &mut Ctx<T>, sp: &mut Spec, observers: boo
     let ab = cx.abs();
     assert!(ab.qlen == sp.blen, "C18: buffer length differs from the reference model");
     assert!(ab.wlen == sp.wlen, "C18: waiting list differs from the reference model");
+    if sp.wlen > 0 {
+        assert!(ab.recv_blocking == !sp.wq[0].is_send, "C18/C03: direction flag of the waiting list disagrees with the operations waiting in it");
+    }
     assert!(ab.send_count == sp.sc && ab.recv_count == sp.rc, "C12: handle counts differ from the live-handle ledger");
     assert!(sp.sc == 0 && sp.rc == 0 || (ab.send_count as usize == live_s(cx) && ab.recv_count as usize == live_r(cx)),
         "C12: count differs from the number of live handles");
